@@ -69,7 +69,49 @@ def _module_state(ctx, col):
                             f"`{ast.unparse(x)[:70]}` writes the module-level container `{name}` (line {containers[name].lineno}): state shared by all "
                             "calls in the process - what this function returns for one argument can depend on which arguments it saw before",
                             text=f"module state {name}")
-    col.add("R19.5", "package", "src/mdpax", 0, True, f"{n} modules scanned: no function writes a module-level container", text="module state scanned")
+    _class_state(ctx, col, "R19.5")
+    col.add("R19.5", "package", "src/mdpax", 0, True, f"{n} modules scanned: no function writes a module-level or class-level container", text="module state scanned")
+
+
+_CONTAINER_CTORS = ("dict", "list", "set", "defaultdict", "OrderedDict", "WeakValueDictionary", "Counter", "deque")
+
+
+def _class_state(ctx, col, rule):
+    """class-level containers (`_managers: dict = {}` in a class body) that methods write through cls / self / the class name: shared by
+    every instance in the process exactly like a module-level container"""
+    import ast
+
+    for ci in sorted(ctx.ct.by_qual.values(), key=lambda c: c.qualname):
+        containers = {}
+        for node in ci.node.body:
+            tgt = val = None
+            if isinstance(node, ast.Assign) and len(node.targets) == 1 and isinstance(node.targets[0], ast.Name):
+                tgt, val = node.targets[0].id, node.value
+            elif isinstance(node, ast.AnnAssign) and isinstance(node.target, ast.Name) and node.value is not None:
+                tgt, val = node.target.id, node.value
+            if tgt and not tgt.startswith("__") and (isinstance(val, (ast.Dict, ast.List, ast.Set)) or (
+                    isinstance(val, ast.Call) and ast.unparse(val.func).split(".")[-1] in _CONTAINER_CTORS)):
+                containers[tgt] = node
+        if not containers or ci.is_dataclass():
+            continue
+        family = [ci] + ctx.ct.subclasses(ci)
+        # an attribute every instance rebinds for itself (self.X = ...) is instance state, not shared
+        rebound = {n.attr for k in family for fn in k.methods.values() for n in ast.walk(fn)
+                   if isinstance(n, ast.Attribute) and isinstance(n.ctx, ast.Store) and isinstance(n.value, ast.Name) and n.value.id == "self"}
+        for k in family:
+            for fn in k.methods.values():
+                for x in ast.walk(fn):
+                    base = None
+                    if isinstance(x, ast.Subscript) and isinstance(x.ctx, (ast.Store, ast.Del)):
+                        base = x.value
+                    elif isinstance(x, ast.Call) and isinstance(x.func, ast.Attribute) and x.func.attr in MUTATORS:
+                        base = x.func.value
+                    if isinstance(base, ast.Attribute) and base.attr in containers and base.attr not in rebound and isinstance(base.value, ast.Name) \
+                            and base.value.id in ("cls", "self", ci.name, k.name):
+                        col.add(rule, f"{k.name}.{fn.name}", k.module.relpath, x.lineno, False,
+                                f"`{ast.unparse(x)[:70]}` writes the class-level container `{ci.name}.{base.attr}` (line {containers[base.attr].lineno}): state shared "
+                                "by every instance in the process - what one solver or one call gets can depend on what another one did before (a manager, "
+                                "table or result made for other arguments is handed out again)", text=f"class state {ci.name}.{base.attr}")
 
 
 def run(ctx: Context, col) -> None:
